@@ -58,6 +58,14 @@ HAND = {
     'deep150': ('def m a {\n;' + '+'.join(['a'] * 150) + '\n}\nm 1\n', False),
     'deepdef600': ('def m a {\n;' + '+'.join(['a'] * 600) + '\n}\n;0\n', False),
     'use_userlib': ("stl.startup\nuserlib.two\nuserlib.two\nstl.loop\n", True),
+    # constants (for the consts container of the cache)
+    'def_consts': ("stl.startup\nCAP = 34\nhw = w/2\nundefined_elsewhere = 7\nstl.loop\n", True),
+    'def_consts_fail': ("stl.startup\nCAP = 34\nhw = w/2\nundefined_elsewhere = 7\nnomacro_at_all 1\n", True),
+    'use_cap_label': ("def declare_cap > CAP {\n  CAP:\n}\nstl.startup\nwflip CAP, 1\nstl.loop\ndeclare_cap\n  ;0\n", True),
+    'redef_cap': ("stl.startup\nCAP = 5\nhw = 9\n;CAP*w\nstl.loop\n", True),
+    'undef_name': ("stl.startup\n;undefined_elsewhere*w\nstl.loop\n", True),
+    'deep250': ('def m a {\n;' + '+'.join(['a'] * 250) + '\n}\nm 1\n', False),
+    'E_nospace': (";1<<70\n", False),
     'E_notutf8': ('b64:' + base64.b64encode(b';0\n\xff\xfe;0\n').decode(), False),
 }
 CORPUS = [('print_tests/hello_world.fj', True), ('print_tests/hello_no-stl.fj', False), ('sanity_checks/simple.fj', True),
@@ -70,10 +78,11 @@ USERLIB = {
     2: "ns userlib {\n  def two {\n    ;\n    ;\n    ;\n  }\n  def three {\n    .two\n  }\n}\n",
     3: "ns userlib {\n  def two {\n    wflip $+2*w, 5\n  }\n}\n",
 }
-FAILING_BASE = ['E_ns_syntax', 'E_ns_syntax_stl', 'E_lex', 'W_unused', 'W_unused_stl', 'E_nomacro', 'E_nomacro_stl', 'E_twice',
+CONSTS = ['def_consts', 'def_consts_fail', 'use_cap_label', 'redef_cap', 'undef_name']
+FAILING_BASE = ['E_nospace', 'E_ns_syntax', 'E_ns_syntax_stl', 'E_lex', 'W_unused', 'W_unused_stl', 'E_nomacro', 'E_nomacro_stl', 'E_twice',
            'E_rec', 'E_div0', 'V_neg', 'E_nofirst', 'E_const_label', 'E_notutf8']
-DEEP = ['deep150', 'deepdef600']
-FAILING = FAILING_BASE + [k + '+stl' for k in FAILING_BASE if not HAND[k][1] and not HAND[k][0].startswith('b64:')]
+DEEP = ['deep150', 'deep250', 'deepdef600']
+FAILING = FAILING_BASE + ['def_consts_fail'] + [k + '+stl' for k in FAILING_BASE if not HAND[k][1] and not HAND[k][0].startswith('b64:')]
 DEEP_ALL = DEEP + [k + '+stl' for k in DEEP]
 DEPTHS = [900, 900, 900, 900, 900, 60, 300, 2000, 5000]
 
@@ -103,6 +112,8 @@ def gen_step(rng, progs, pool):
         st['depth'] = rng.choice([20, 60, 900])
     if stl and rng.random() < 0.12:
         st['spelling'] = 'link'
+    if stl and rng.random() < 0.12:
+        st['stl_short'] = rng.choice(['lib', 'shift'])
     if name == 'use_userlib':
         st['userlib'] = rng.choice([1, 1, 2, 3])
     elif stl and rng.random() < 0.15:
@@ -122,7 +133,7 @@ def gen_step(rng, progs, pool):
 
 
 def gen_case(rng, progs, idx):
-    ok_pool = [k for k in progs if k not in FAILING and k not in DEEP_ALL]
+    ok_pool = [k for k in progs if k not in FAILING and k not in DEEP_ALL and k != 'def_consts_fail']
     any_pool = ok_pool + ok_pool + FAILING + DEEP_ALL
     kind = rng.random()
     n = rng.choice([1, 2, 2, 3, 3, 4, 5, 6])
@@ -161,6 +172,53 @@ def gen_case(rng, progs, idx):
     return {'id': idx, 'steps': steps + [probe]}
 
 
+def step(prog, progs, **kw):
+    st = {'prog': prog, 'stl': progs[prog][1], 'width': 64, 'werror': True, 'version': 3, 'depth': DEFAULT_DEPTH,
+          'spelling': 'real', 'userlib': None, 'extra': None}
+    st.update(kw)
+    return st
+
+
+def directed_cases(progs, first_id):
+    """families that are always run (and therefore the first thing tried when a tie is broken)"""
+    fams = []
+    # (a) the consts container of the cache: the call that FILLS the cache defines constants; the probe (same key) uses
+    #     the same identifiers as labels, redefines them, or leaves them undefined
+    for w, we in ((64, True), (32, False)):
+        for filler in ('def_consts', 'def_consts_fail'):
+            for probe in ('use_cap_label', 'redef_cap', 'undef_name', 'c_hello_world'):
+                fams.append(('consts', [step(filler, progs, width=w, werror=we), step(probe, progs, width=w, werror=we)]))
+        fams.append(('consts', [step('c_hello_world', progs, width=w, werror=we), step('def_consts', progs, width=w, werror=we),
+                                step('use_cap_label', progs, width=w, werror=we)]))
+    # (b) a FAILING call with a non-default max_recursion_depth, then a probe whose parse recurses deeply (both directions)
+    later_stage = ['E_nomacro', 'E_twice', 'E_rec', 'E_nofirst', 'E_nospace', 'E_nomacro+stl', 'E_twice+stl']
+    parse_stage = ['E_ns_syntax', 'E_lex', 'W_unused', 'E_const_label', 'E_div0', 'E_notutf8']
+    for f in later_stage + parse_stage:
+        if f not in progs:
+            continue
+        for depth, probe in ((50, 'deep250'), (60, 'deep150'), (5000, 'deepdef600')) if f in later_stage else ((50, 'deep250'),):
+            fams.append(('limit-after-failure', [step(f, progs, depth=depth), step(probe, progs)]))
+    for depth, probe in ((50, 'deep250'), (5000, 'deepdef600')):
+        fams.append(('limit-after-success', [step('tiny', progs, depth=depth), step(probe, progs)]))
+    # (c) the same stl files under other short names (the .fjd label names carry the short names)
+    for prog in ('c_hello_world', 'c_print_as_digit'):
+        if prog in progs:
+            fams.append(('short-names', [step(prog, progs), step(prog, progs, stl_short='lib')]))
+            fams.append(('short-names', [step(prog, progs, stl_short='lib'), step(prog, progs)]))
+            fams.append(('short-names', [step(prog, progs), step(prog, progs, stl_short='shift')]))
+    # (d) width / warning mode / edited stl file / namespace left open, each as a two- or three-call history
+    fams.append(('width', [step('c_hello_world', progs, width=64), step('c_hello_world', progs, width=32)]))
+    fams.append(('warning-mode', [step('W_unused_stl', progs, werror=False), step('W_unused_stl', progs, werror=True)]))
+    fams.append(('main-ops', [step('c_hello_world', progs), step('c_simple', progs), step('c_hello_world', progs)]))
+    fams.append(('namespace', [step('E_ns_syntax_stl', progs), step('c_hello_world', progs)]))
+    fams.append(('edited-stl', [step('use_userlib', progs, userlib=1), step('use_userlib', progs, userlib=2)]))
+    cases = []
+    for k, (fam, steps) in enumerate(fams):
+        if all(s['prog'] in progs for s in steps):
+            cases.append({'id': first_id + k, 'steps': steps, 'family': fam})
+    return cases
+
+
 def stl_names(pkg):
     conf = json.loads((pkg / 'flipjump' / 'stl' / 'conf.json').read_text())
     return list(conf['all'])
@@ -178,7 +236,12 @@ def materialise(case, roots, side, progs):
         pre = [[str(user), src, 0]]
         base = roots['LINK'] if st['spelling'] == 'link' else roots['STL']
         if st['stl']:
-            files = [[f's{k}', f'{base}/{n}.fj'] for k, n in enumerate(names, start=1)]
+            if st.get('stl_short') == 'lib':
+                files = [['lib_' + n.replace('/', '_'), f'{base}/{n}.fj'] for n in names]
+            elif st.get('stl_short') == 'shift':     # the usual names, given to other files
+                files = [[f's{k}', f'{base}/{n}.fj'] for k, n in zip(list(range(2, len(names) + 1)) + [1], names)]
+            else:
+                files = [[f's{k}', f'{base}/{n}.fj'] for k, n in enumerate(names, start=1)]
             if st['extra'] == 'stl_twice':
                 files = files + [[f't{k}', f'{base}/{n}.fj'] for k, n in enumerate(names[:2], start=1)]
             if st['userlib']:
@@ -317,10 +380,26 @@ def cb(b):
     return 'true' if b else 'false'
 
 
+class OddShape(Exception):
+    """an observed structure does not have the modelled shape (reported as a broken tie, never a crash)"""
+
+
 def key_term(T, kj):
-    w, e, files = json.loads(kj)
-    fk = cl(f'({cs(s)}, {cs(p)}, {int(m)}, {int(z)})' for s, p, m, z in files)
-    return T.name('k', f'({int(w)}, {cb(e)}, {fk})', 'ckey')
+    try:
+        k = json.loads(kj)
+        w, e, files = k
+        ents = []
+        for ent in files:
+            if len(ent) != 4:
+                raise OddShape(f'a per-file entry of the cache key has {len(ent)} components, the model has 4 '
+                               f'(short name, resolved path, mtime_ns, size): {ent}')
+            sname, pth, m, z = ent
+            ents.append(f'({cs(str(sname))}, {cs(str(pth))}, {int(m)}, {int(z)})')
+        return T.name('k', f'({int(w)}, {cb(bool(e))}, {cl(ents)})', 'ckey')
+    except OddShape:
+        raise
+    except Exception as ex:  # noqa
+        raise OddShape(f'cache key of unexpected shape {kj[:200]}: {type(ex).__name__}: {ex}')
 
 
 def step_class(res):
@@ -462,8 +541,8 @@ def run(ctx):
     mark('proofs')
     progs = load_programs()
     env = Env(ctx)
-    n = int(os.environ.get('FJVERIF_C13_N', '0')) or ctx.n(150, 2000)
-    cases = [gen_case(ctx.rng, progs, i) for i in range(n)]
+    n = int(os.environ.get('FJVERIF_C13_N', '0')) or ctx.n(110, 2000)
+    cases = directed_cases(progs, 100000) + [gen_case(ctx.rng, progs, i) for i in range(n)]
 
     def job(case):
         try:
@@ -492,6 +571,7 @@ def run(ctx):
         ctx.hist('probe_tags', classify_step(hp) + ('/limit-leaked' if hp['limit_before'] != out['fa']['limit_before'] else ''))
         ctx.hist('history_length', len(steps) - 1)
         ctx.hist('probe_program', case['steps'][-1]['prog'])
+        ctx.hist('family', case.get('family', 'random'))
         for r in steps:
             if r['status'] == 'err':
                 ctx.hist('error_kinds', f"{r.get('exc')}<-{r.get('cause')}")
@@ -535,19 +615,32 @@ def run(ctx):
     def eval_group(ig):
         idx, grp = ig
         T = Terms()
-        ts = [history_term(T, out['hist']) for _, out in grp]
+        ts, kept, odd = [], [], []
+        for case, out in grp:
+            try:
+                ts.append(history_term(T, out['hist']))
+                kept.append((case, out))
+            except Exception as ex:  # noqa - an observed structure of unexpected shape is a broken tie, not a crash
+                odd.append(f'history {case["id"]}: {type(ex).__name__}: {ex}')
+        grp = kept
+        if not grp:
+            return [], '', T, odd, grp
         path = ctx.scratch / f'c13_replay_{idx}.v'
         path.write_text(HEADER + '\n'.join(T.defs) + '\nDefinition cases := [\n' + ';\n'.join(ts) + '\n].\n'
                         'Eval vm_compute in (map check_history cases).\nEval vm_compute in (map spec_on_model cases).\n')
         rc, o = fw.coqc_file(path, 1200)
         bs = fw.parse_bools(o)
         if rc != 0 or len(bs) != 2 * len(grp):
-            return [(None, None, t) for t in ts], o, T
-        return [(bs[i], bs[len(grp) + i], ts[i]) for i in range(len(grp))], '', T
+            return [(None, None, t) for t in ts], o, T, odd, grp
+        return [(bs[i], bs[len(grp) + i], ts[i]) for i in range(len(grp))], '', T, odd, grp
     with ThreadPoolExecutor(max_workers=fw.NCPU) as ex:
         evals = list(ex.map(eval_group, list(enumerate(groups))))
     n_model_bad = 0
-    for grp, (rows, err, T) in zip(groups, evals):
+    n_odd = 0
+    for rows, err, T, odd, grp in evals:
+        if odd:
+            n_odd += len(odd)
+            ctx.broken_tie('T-corr: an observed structure does not have the modelled shape (Model/AsmCache.v)', odd[0])
         if err:
             ctx.broken_tie('coq evaluation of the C13 replay', err)
             continue
@@ -566,7 +659,7 @@ def run(ctx):
             if okv and sp != (step_class(hp) == step_class_fresh(out['fa'], hp)):
                 ctx.broken_tie('spec evaluated on the model vs on the implementation',
                                f'history {case["id"]}: model says history-free={sp}, implementation says {real_spec}')
-    ctx.coverage['model_replay'] = {'histories': len(term_cases), 'disagreements': n_model_bad,
+    ctx.coverage['model_replay'] = {'histories': len(term_cases), 'disagreements': n_model_bad, 'unmodelled_shape': n_odd,
                                     'calls': sum(len(o['hist']['results']) for _, o in term_cases)}
     mark('coq_replay')
     boundary(ctx, env, progs)
